@@ -285,6 +285,20 @@ theorem expiry_finite :
     model would notice.  The concurrent correspondence `TestC04Guard` exercises the same discipline on the real code. -/
 theorem guard_held_across_handler : guardReleasedOnlyAfterNext = true := rfl
 
+/-- **layer_per_connection** — what "`Endpoint` = one connection" rests on.  The caches of the layer are keyed by the token
+    alone and tokens are scoped to a connection (RFC 7252 §5.3.1), so the model's endpoint — and with it every theorem
+    here — describes one connection's layer.  That each accepted / dialled connection gets a layer of its own is read
+    from the set-up code of the tcp, udp and dtls servers and clients (`createBlockWise` is a function literal returning
+    `blockwise.New(…)`; any other shape fails the extractor) and exercised on a real `tcp.Server` with several peers that
+    use one token (`TestC04TcpServer`). -/
+theorem layer_per_connection : layerPerConnection = true := rfl
+
+/-- **datagram_read_buffer_is_mtu** — what "an arrival is a message the peer's layer emitted" rests on for datagrams: the
+    session reads into a buffer of a whole MTU, so a datagram longer than the maximum message size keeps its length and is
+    refused by the connection (the exchange fails) instead of being cut to the limit by the socket and decoded as a shorter,
+    well-formed block (`TestC04UdpDial` runs a real `udp.Dial` client against such datagrams). -/
+theorem datagram_read_buffer_is_mtu : datagramReadBufferIsMTU = true := rfl
+
 /-- **system_safe.** A (client) and B (server) joined by the relay.  For every script of relay decisions — deliver,
     duplicate, drop, swap, replay of any message that ever was in flight —, calls of `Do` and one-way `WriteMessage`
     by A's application, sleeps and cache sweeps: every message either layer hands to its application is an arrival
@@ -445,6 +459,8 @@ open CoapVerif.Props.C04
 #print axioms token_reuse_restarts
 #print axioms expiry_finite
 #print axioms guard_held_across_handler
+#print axioms layer_per_connection
+#print axioms datagram_read_buffer_is_mtu
 #print axioms system_safe
 #print axioms faultfree_progress_block1
 #print axioms faultfree_progress_block2
